@@ -16,6 +16,11 @@
             shortened / lengthened, specifiers and names changed (unknown / duplicate), heights off the reference mesh
      pins   a pin lattice (corners-up or flats-up hex, text map or explicit list): ids placed on the seven inner cells,
             latticeIDs, explicit mult (conflicts), unknown grid name
+     duct   a wire-wrapped 19-pin bundle inside an inner and an outer hexagonal duct: inner / outer duct ip, wire od, pin
+            count, the two ducts written in either order, one duct dropped -- the bundle must fit the INNERMOST duct
+            (HexBlock.verifyBlockDims / getPinToDuctGap), whatever the order
+     (comp also: zero-valued modification entries (a request, unlike a blank), two modifications of one component set
+      together, any list too short or too long; stack also: lower-case, mixed-case and two-letter xs types)
      core   two assembly designs on core grids: hex full, hex third, hex corners-up full, Cartesian full and quarter
             (each as explicit list and as text map), theta-R-Z (explicit list); cells placed / removed, unknown
             specifier, cells outside a third core, a cell listed twice, two grids of one name
@@ -28,7 +33,7 @@ Depth1(f) == 1
 QuickDepth(f)    == IF f \in {"comp"} THEN 3 ELSE IF f \in {"core"} THEN 1 ELSE 2
 EmitDepth(f)     == IF f \in {"core"} THEN 1 ELSE 2
 ThoroughDepth(f) == IF f \in {"comp"} THEN 4 ELSE IF f \in {"core"} THEN 2 ELSE 3
-ThoroughEmit(f)  == IF f \in {"comp", "pins"} THEN 3 ELSE 2
+ThoroughEmit(f)  == IF f \in {"comp", "pins", "duct"} THEN 3 ELSE 2
 View == vars
 \* one JSON line per document: the abstract text, the verdict and -- for well-formed documents -- the reactor it describes
 EmitState == ~Modelled(doc) \/ PrintT(ToJson([fam |-> fam, doc |-> doc, verdict |-> V, why |-> Why(doc), act |-> act,
